@@ -926,7 +926,7 @@ func runIdxBound(p *core.Prog) *core.Result {
 			as, aX := elemIndexOf(src.Low)
 			bs, bX := elemIndexOf(src.High)
 			if bs == nil || (src.Low != nil && as == nil) || !sameElemSize(bX) || (aX != nil && aX != bX) {
-				res.Bad(key, pos, "open-ended destination slice of a view's buffer and the number of source elements cannot be related to the destination view (different or unknown element sizes): the copy is bounded only by the end of the ArrayBuffer")
+				res.Unknown(key, pos, "open-ended destination slice of a view's buffer, and the number of source elements cannot be related to the destination view (element sizes not unified by a defaultCtor equality test): this rule cannot decide whether the copy stays inside the view")
 				return
 			}
 			e := ll.addScaled(a.lin(bs), 1)
